@@ -88,6 +88,11 @@ def generate_subgraphs(graph: IterationNode) -> list[IterationNode]:
         if len(new_graphs) == 0:
             break
         else:
+            # A subgraph that is derived again from a later generation has strictly fewer sparse
+            # layers than the graph it was just derived from, so it must be emitted after that
+            # graph. Move it to the end instead of keeping its original position.
+            for sparse_layers in new_graphs:
+                all_subgraphs.pop(sparse_layers, None)
             all_subgraphs.update(new_graphs)
             old_subgraphs = new_graphs
 
